@@ -472,3 +472,46 @@ PROPS["C11"] = dict(
                guard={"quick": 1200, "thorough": 10800})],
     min_class_fraction={"evaluations_overlapped": 0.15, "constant_list": 0.2, "different_arguments": 0.3},
 )
+
+
+# ---- rule amendments (the rule strings above are concatenated literals; amendments made while
+# ---- the checks were strengthened are applied to the evaluated strings) ----
+def _amend(pid, old, new):
+    assert old in PROPS[pid]["rule"], (pid, old[:60])
+    PROPS[pid]["rule"] = PROPS[pid]["rule"].replace(old, new, 1)
+
+
+_amend("C06", "Oracle: the reference interpreter's strictly sequential eager result (element sequence, or 'fails'). Non-trivial: a goroutine probe",
+    "The terminal multiUseNested lets the consumers return lazy lists inside maps and lists ({x: list}, {k:1, m:{x: list}}, [{x: list}, 7]) which "
+    "multiUse has to force while it feeds them. Oracle: the reference interpreter's strictly sequential eager result (element sequence, or 'fails'). "
+    "Non-trivial: a goroutine probe")
+_amend("C11", "Oracle: every goroutine's outcome equals the reference interpreter's outcome for its own arguments;",
+    "In a third of the cases the arguments of all goroutines are rows of ONE argument table and every goroutine passes its row (a sub-slice whose "
+    "capacity reaches over the following rows). Oracle: every goroutine's outcome equals the reference interpreter's outcome for its own arguments;")
+_amend("C16", "Non-trivial: at least one free attribute occurrence lies inside a closure or func body; distinct = program text + map.",
+    "In a fifth of the cases a generator of its own first generates a function with the same map name, THEN an int attribute name that the program "
+    "uses (and does not bind) is registered as a constant: constants shadow attributes, so the reference, the explicit form and the implicit form "
+    "must all read the constant. Non-trivial: at least one free attribute occurrence lies inside a closure or func body; distinct = program text + map.")
+_amend("C17", "every scalar as the JSON string of its string form.",
+    "every scalar as the JSON string of its string form; a second export of the same value yields the same document.")
+_amend("C19", "larger trees (depth<=6, with let/if anywhere the grammar allows) sampled by rapid.",
+    "the forms let x=E1; let x=E2; E3 (the same name declared twice in one body) enumerated with <=1 node per slot: every generator either rejects "
+    "them as a redeclaration or the inner declaration is the one in scope; larger trees (depth<=6, with let/if anywhere the grammar allows) sampled by rapid.")
+_amend("C07", "Oracle: the eager reference library (harness/ref)",
+       "Windows and groups a built-in hands out (movingWindow, movingWindowRemove) are also appended to and changed (they are lists of their own). Every "
+       "program is evaluated twice on the same generated function with the same argument objects. Oracle: the eager reference library (harness/ref)")
+_amend("C09", "a third of the steps derives again from the parent",
+       "operations on the sub-lists a built-in hands out (movingWindow/movingWindowRemove/combineN windows and groupByInt values with an append applied to "
+       "each); merges with a one-entry map literal whose key is new; a third of the steps derives again from the parent")
+_amend("C10", "passes the very same objects to every evaluation with that tuple.",
+       "keeps the tuples of a program as rows of ONE table and passes the rows (sub-slices whose capacity reaches over the following rows) to every "
+       "evaluation with that tuple: an evaluation must not write to it.")
+_amend("C13", "NewToMap struct wrapper with generated attribute sets",
+       "NewToMap struct wrapper with generated attribute sets (registered as drawn: a name registered again overrides the earlier registration)")
+_amend("C15", "(with and without a blank where the lexer allows) equals the explicit form.",
+       "(without separator where the lexer allows, or set off by any white space: blank, LF, LF LF, tab, CR LF, CR, mixed) equals the explicit form.")
+_amend("C18", "ToHtml returns failures as err, never panics.",
+       "ToHtml returns failures as err, never panics; a second XML export of the same value yields the same document.")
+_amend("C20", "axes: start on a 1/4 grid, size from {1/8,1/4,1/2,1,2,4,3,5,10},",
+       "axes: start on a 1/4 grid, size from {1/8,1/4,1/2,1,2,4,3,5,10}, a quarter of them fine grids (start on a 1/1024 grid, size from {1/64,1/256,1/1024,1,1/4,3}: "
+       "bounds with many exactly representable decimals),")
